@@ -282,6 +282,17 @@ def handle (op : String) (c i : Json) : Except String (Json × String) := do
                     ("read", J.ofList ((readFrames (lines.map String.toList)).map blockJ))]
     let rd ← (← J.arr (← J.key i "read")).mapM blockOf
     pure (m, if SpecRT.blocksSame rd bs then "ok" else "fail: frames or signals of the frame section read back differently")
+  | "core" =>
+    -- c = {"frames": [{"bo", "sigs": [{"sg", "comment"}], "more": [senders after the first], "comment"}]}
+    -- i = {"core": the lines of the frame section, the BO_TX_BU_ lines, the frame comments and the signal comments of the real file}
+    if !J.isNull (J.keyD i "skipped" Json.null) then return (J.obj [], "ok")
+    let optStr (j : Json) : Except String (Option Str) := if J.isNull j then pure none else do pure (some (← J.str j).toList)
+    let fs ← (← J.arr (← J.key c "frames")).mapM fun fj => do
+      let sigs ← (← J.arr (← J.key fj "sigs")).mapM fun sj => do
+        pure ({ sg := ← sgOf (← J.key sj "sg"), comment := ← optStr (← J.key sj "comment") } : WSig)
+      pure ({ bo := ← boOf (← J.key fj "bo"), sigs := sigs, moreSenders := (← J.strList (← J.key fj "more")).map String.toList,
+              comment := ← optStr (← J.key fj "comment") } : WFrame)
+    pure (J.obj [("core", J.ofStrList ((writeCore fs).map String.ofList))], "ok")
   | "whole" =>
     -- i = {"lines": the lines of a file, "snap": the matrix the real reader has built when its line loop ends (before the post-processing)}
     if !J.isNull (J.keyD i "skipped" Json.null) then return (J.obj [], "ok")
